@@ -387,3 +387,6 @@ Definition s_WalletDataV4 : schema := SSeq [SUint 32; SUint 32; SBits 256; SDict
 Definition s_WalletDataHighloadV2 : schema := SSeq [SUint 32; SUint 64; SBits 256; SDictE 64].
 (* v5r1: is_signature_allowed:Bool seqno:uint32 wallet_id:uint32 public_key:bits256 extensions:(HashmapE 256 ...) *)
 Definition s_WalletDataV5R1 : schema := SSeq [SBool; SUint 32; SUint 32; SBits 256; SDictE 256].
+
+(* the 288-bit key of suspended_address_list (ConfigParam 44): workchain:int32 address:bits256 *)
+Definition s_AddressWithWorkchain : schema := SSeq [SInt 32; SBits 256].
